@@ -71,3 +71,62 @@ Proof. exact spec_long_encode_long. Qed.
 
 (* counts above i64::MAX (reachable only through push_serialized with a bogus count) are outside the grammar *)
 Check count_above_i64_not_in_grammar.
+
+(** ** Any codec: layout and independent readability of files with compressed blocks
+    (spec/FileSpecCodec.v: block = count, size AFTER the codec is applied, the compressed objects, sync; snappy = raw block +
+    big-endian CRC-32 of the uncompressed data; proofs/ContainerCodecLayout.v) *)
+Require Import Sval Ser AvroValue Encoding VectoredWrite CodecLoop FileSpecCodec ContainerReadProofs ContainerCodecProofs ContainerCodecLayout.
+
+(* for every session of the writer model with ANY block codec function enc: the reference parser reads the sink back as the written
+   header (schema, codec name, user entries, sync marker) and blocks whose counts are the lengths of a partition of the written values
+   into non-empty blocks and whose data is enc of exactly that block's encodings; and an independent reader that decompresses with any
+   dec inverting enc obtains, block by block, exactly the specification encodings of the values *)
+Theorem C06_codec_layout : forall (enc : bytes -> bytes) (Sc : fschema) (root : fnode) (approx : N) (sync : bytes) (vectored : bool),
+  schema_wf Sc = true -> fnode_at Sc 0 = Some root -> length sync = 16%nat ->
+  forall (dec : decoder) (json cname : bytes) (user : list (bytes * bytes)) (sched : list wans) (hs : list hop) (close : wop) (st' : wstate),
+  session enc Sc root approx sync vectored json cname user sched hs close st' ->
+  fits (length (vals_of hs)) -> enc_sizes_ok enc Sc root (vals_of hs) -> dec_inverts enc Sc root dec (vals_of hs) ->
+  exists (blocks : list (list avalue)) (f : rfile) (o : ofile),
+    partition_of (vals_of hs) blocks /\
+    ref_parse (w_sink st') = Some f /\
+    rf_meta f = ContainerHeaderProofs.header_entries json cname user /\ rf_sync f = sync /\
+    file_schema f = Some json /\ file_codec f = cname /\
+    map rb_count (rf_blocks f) = map (fun vs : list avalue => Z.of_nat (length vs)) blocks /\
+    map rb_data (rf_blocks f) = map (fun vs : list avalue => enc (encs Sc root vs)) blocks /\
+    Forall (fun b : rblock => (1 <= rb_count b)%Z) (rf_blocks f) /\
+    fold_right Z.add 0%Z (map rb_count (rf_blocks f)) = Z.of_nat (length (vals_of hs)) /\
+    ref_read dec (w_sink st') = Some o /\
+    of_meta o = rf_meta f /\ of_sync o = sync /\
+    of_blocks o = map (oblock_of Sc root) blocks /\ file_objects o = encs Sc root (vals_of hs) /\ file_count o = Z.of_nat (length (vals_of hs)).
+Proof. exact ContainerCodecLayout.C06_codec_layout. Qed.
+
+(* ... and every block's objects are valid encodings (the specification's relation) of exactly the values written into it *)
+Theorem C06_codec_values : forall (enc : bytes -> bytes) (Sc : fschema) (root : fnode) (approx : N) (sync : bytes) (vectored : bool),
+  schema_wf Sc = true -> fnode_at Sc 0 = Some root -> length sync = 16%nat ->
+  forall (dec : decoder) (json cname : bytes) (user : list (bytes * bytes)) (sched : list wans) (hs : list hop) (close : wop) (st' : wstate),
+  session enc Sc root approx sync vectored json cname user sched hs close st' ->
+  fits (length (vals_of hs)) -> enc_sizes_ok enc Sc root (vals_of hs) -> dec_inverts enc Sc root dec (vals_of hs) ->
+  Forall (fun v : avalue => conforms Sc root v = true) (vals_of hs) ->
+  exists (blocks : list (list avalue)) (o : ofile),
+    partition_of (vals_of hs) blocks /\ ref_read dec (w_sink st') = Some o /\ Forall2 (objects_denote Sc root) (of_blocks o) blocks.
+Proof. exact ContainerCodecLayout.C06_codec_values. Qed.
+
+(* snappy with the real CRC-32 (bitwise definition, check value 0xCBF43926): the reader that picks its decompressor from the parsed
+   avro.codec entry reads the file *)
+Theorem C06_snappy_crc32_layout : forall (Sc : fschema) (root : fnode) (approx : N) (sync : bytes) (vectored : bool),
+  schema_wf Sc = true -> fnode_at Sc 0 = Some root -> length sync = 16%nat ->
+  forall (raw_enc : bytes -> bytes) (raw_dec : bytes -> option bytes) (others : bytes -> option decoder) (json : bytes)
+    (user : list (bytes * bytes)) (sched : list wans) (hs : list hop) (close : wop) (st' : wstate),
+  (forall x : bytes, raw_dec (raw_enc x) = Some x) ->
+  session (snappy_encode raw_enc spec_crc32) Sc root approx sync vectored json SNAPPY_NAME user sched hs close st' ->
+  fits (length (vals_of hs)) -> enc_sizes_ok (snappy_encode raw_enc spec_crc32) Sc root (vals_of hs) ->
+  exists blocks : list (list avalue),
+    partition_of (vals_of hs) blocks /\
+    ref_read_auto raw_dec others (w_sink st') =
+      Some {| of_meta := ContainerHeaderProofs.header_entries json SNAPPY_NAME user; of_sync := sync; of_blocks := map (oblock_of Sc root) blocks |}.
+Proof. exact writer_file_ref_read_snappy_crc32. Qed.
+Check spec_keys_are_crate.
+Check LayoutExample.toy_file_parsed.
+Check LayoutExample.crc32_check_value.
+Check LayoutExample.crc32_file_computed.
+Check LayoutExample.wrong_decoder_refuted.
